@@ -397,6 +397,31 @@ func rulesC06(c *Ctx) {
 				okOp = true
 			}
 		}
+		// the replay of an entry does not depend on the value stored with it: the journals are sets of
+		// paths; a per-entry flag (cleared by an earlier Commit) makes the replay skip an entry that a later
+		// operation of another journal has made necessary again
+		if okOp {
+			var val ssa.Value
+			for _, r := range *rng.Referrers() {
+				if nx, ok := r.(*ssa.Next); ok {
+					for _, e := range resultN(nx, 2) {
+						val = e
+					}
+				}
+			}
+			if val != nil {
+				valDep := false
+				eachInstr(rngFn, func(_ *ssa.BasicBlock, _ int, in ssa.Instruction) {
+					if iff, ok := in.(*ssa.If); ok && pureDep(iff.Cond, val, 0) {
+						valDep = true
+					}
+				})
+				if valDep {
+					c.Bad("R2", con, rng.Pos(), "the replay loop over journal "+jn+" branches on the value stored with the entry (a per-entry flag): an entry an earlier Commit has marked is skipped although a later Remove/RemoveAll replay makes it necessary again — the committed tree differs from the buffered view")
+					continue
+				}
+			}
+		}
 		c.Check(okOp, "R2", con, rng.Pos(), "ranged over, and "+strings.Join(ops, "/")+" is applied to the remote with the ranged path", "the loop over journal "+jn+" does not apply "+strings.Join(ops, "/")+" to the remote for the ranged path — these buffered operations are silently dropped (or replayed as a different operation)")
 	}
 	c.Floor("R2", n2, 4)
@@ -581,6 +606,11 @@ func rulesC06(c *Ctx) {
 		n5 += guardedAccessRule(c, le, "R5", fns, roles.histNamed(c), fld.Name(), fld.Name()+"MU", nil)
 	}
 	c.Floor("R5", n5, 8)
+
+	// ---- R9 names are whole (same rule as C02.R8): a pending change is never matched by a bare string prefix ----
+	if fsI := c.P.Iface("filesystem", "Filespace"); fsI != nil {
+		c.Floor("R9", ruleNamesOpaque(c, "R9", fsI, []*types.Named{roles.cacheT}), 10)
+	}
 
 	// ---- R6 the copy step Commit relies on reports failure (same rule as C04.R3) ------------------------
 	if sc := c.P.Func(helperPkg, "", "StreamCopy"); sc != nil {
@@ -1091,4 +1121,32 @@ func handsOnHelper(f *ssa.Function) *ssa.Function {
 		h = g
 	}
 	return h
+}
+
+// pureDep: v is computed from w by operators only (no call in between: the outcome of a
+// remote operation that merely received w is not "depending on w").
+func pureDep(v, w ssa.Value, d int) bool {
+	if v == nil || d > 8 {
+		return false
+	}
+	if v == w {
+		return true
+	}
+	switch x := v.(type) {
+	case *ssa.UnOp:
+		return pureDep(x.X, w, d+1)
+	case *ssa.BinOp:
+		return pureDep(x.X, w, d+1) || pureDep(x.Y, w, d+1)
+	case *ssa.Convert:
+		return pureDep(x.X, w, d+1)
+	case *ssa.ChangeType:
+		return pureDep(x.X, w, d+1)
+	case *ssa.Phi:
+		for _, e := range x.Edges {
+			if e != v && pureDep(e, w, d+1) {
+				return true
+			}
+		}
+	}
+	return false
 }
